@@ -1580,3 +1580,100 @@ def corpus_c08(tier):
             c["params"] = dict(c["params"], single_outcome=True)
         progs.append(c)
     return _layout_cases(progs, tier, quick_builds=("opt", "opt+medium", "opt+substation"), quick_unknown=(0, 3))
+
+
+def fam_places_fixed():
+    A, B = V("a"), V("b")
+    ins = [["input", "a", "signal-A", 10007], ["input", "b", "signal-B", 10009]]
+    I, J = V("i"), V("j")
+    progs = []
+
+    def add(name, body, **params):
+        progs.append({"id": f"zfixed-{name}", "family": "fixed", "kind": "layout", "stmts": ins + body, "params": params})
+
+    def lamp(name, x, y, cond=None, proto="small-lamp", props=None):
+        out = [["place", name, proto, x, y, props]]
+        if cond is not None:
+            out.append(["enable", name, cond])
+        return out
+
+    add("literals", lamp("l0", K(0), K(0), A) + lamp("l1", K(5), K(-3), ["cmp", ">", A, K(2)]) + lamp("l2", K(-7), K(4)) + lamp("l3", K(2), K(9), ["cmp", "<", B, K(0)]))
+    add("int-vars", [["int", "px", K(6)], ["int", "py", ["bin", "-", K(0), K(4)]], ["int", "qx", ["bin", "+", V("px"), K(3)]]] + lamp("l0", V("px"), V("py"), A) + lamp("l1", V("qx"), V("py"), B) + lamp("l2", ["bin", "*", V("px"), K(2)], ["bin", "+", V("py"), K(10)]))
+    add("loop-row", [["for", "i", ["range", 0, 8, None], lamp("l", I, K(0), ["cmp", ">", A, I])]])
+    add("loop-arith", [["for", "i", ["range", 0, 5, None], lamp("l", ["bin", "*", I, K(3)], ["bin", "-", K(2), I], ["cmp", ">", A, I]) + lamp("m", ["bin", "+", ["bin", "*", I, K(3)], K(1)], ["bin", "-", K(2), I])]])
+    add("loop-desc-neg", [["for", "i", ["range", 4, -5, -2], lamp("l", I, ["bin", "*", I, K(2)], ["cmp", ">", A, K(0)])]])
+    add("grid-5x5", [["for", "i", ["range", 0, 5, None], [["for", "j", ["range", 0, 5, None], lamp("l", ["bin", "*", I, K(2)], ["bin", "*", J, K(2)], ["cmp", ">", A, ["bin", "+", ["bin", "*", I, K(5)], J]])]]]])
+    add("func-place", [["func", "put", [["int", "x"], ["int", "row"]], lamp("l", ["bin", "*", V("x"), K(2)], ["bin", "+", V("row"), K(1)], ["cmp", ">", A, V("x")]), V("x")],
+                       ["for", "x", ["range", 0, 3, None], [["int", "r", ["call", "put", [["bin", "+", V("x"), K(5)], ["bin", "-", K(0), V("x")]]]]]]])
+    add("func-place-two-calls", [["func", "pair", [["int", "x"], ["int", "y"]], lamp("u", V("x"), V("y"), A) + lamp("v", ["bin", "+", V("x"), K(1)], V("y"), B), V("x")], ["int", "r1", ["call", "pair", [K(0), K(0)]]], ["int", "r2", ["call", "pair", [K(10), K(-5)]]]])
+    add("multi-tile", lamp("t0", K(4), K(4), ["cmp", ">", A, K(3)], proto="train-stop") + lamp("as", K(8), K(4), ["cmp", ">", B, K(3)], proto="assembling-machine-1") + lamp("tk", K(12), K(4), proto="storage-tank") + lamp("rb", K(16), K(4), proto="roboport") + lamp("pm", K(21), K(4), proto="pump"))
+    add("multi-tile-negative", lamp("t0", K(-6), K(-6), ["cmp", ">", A, K(3)], proto="train-stop") + lamp("as", K(-12), K(2), ["cmp", ">", B, K(3)], proto="assembling-machine-1") + lamp("tk", K(-3), K(-9), proto="storage-tank") + lamp("l", K(-7), K(1), A))
+    add("unwired", lamp("c0", K(0), K(0), proto="steel-chest") + lamp("c1", K(1), K(0), proto="steel-chest") + lamp("b0", K(0), K(2), proto="transport-belt") + lamp("b1", K(1), K(2), proto="transport-belt") + lamp("p", K(5), K(5), proto="medium-electric-pole"))
+    add("props", lamp("l", K(2), K(3), A, props={"always_on": 1, "use_colors": 1}) + lamp("t", K(-4), K(6), props={"station": '"Iron Pickup"'}, proto="train-stop") + lamp("i", K(0), K(0), A, proto="inserter", props={"direction": 4}) + lamp("am", K(6), K(6), props={"recipe": '"iron-gear-wheel"'}, proto="assembling-machine-1"))
+    add("adjacent-to-origin", lamp("l0", K(0), K(0), A) + lamp("l1", K(1), K(0), B) + lamp("l2", K(0), K(1), ["cmp", ">", ["bin", "+", A, B], K(3)]) + [["sig", "o", ["proj", ["bin", "*", A, B], "signal-X"]]])
+    add("far-corners", lamp("l0", K(-40), K(-40), A) + lamp("l1", K(40), K(40), A) + lamp("l2", K(-40), K(40), B) + lamp("l3", K(40), K(-40), B))
+    add("row-60", [["for", "i", ["range", 0, 60, None], lamp("l", I, K(0), ["cmp", ">", A, I])]], single_outcome=True)
+    return progs
+
+
+def corpus_c09(tier):
+    progs = fam_places_fixed()
+    cases = _layout_cases(progs, tier, quick_builds=("opt", "opt+medium", "opt+substation"), quick_unknown=(0, 3), all_unknown=(0, 3))
+    if tier == "thorough":
+        I = V("i")
+        ins = [["input", "a", "signal-A", 10007]]
+        for n, w in ((200, 20), (520, 26), (1000, 40)):
+            body = [["for", "i", ["range", 0, n // w, None], [["for", "j", ["range", 0, w, None], [["place", "l", "small-lamp", V("j"), I, None]]]]]]
+            cases.append({"id": f"zbig-{n}|opt|u0", "family": "big", "kind": "layout", "stmts": ins + body, "params": {"builds": [OPT], "unknown_first": [0], "e3": False, "check_entities": False}})
+    return cases
+
+
+def fam_power_fixed():
+    A, B = V("a"), V("b")
+    ins = [["input", "a", "signal-A", 10007], ["input", "b", "signal-B", 10009]]
+    P = lambda e, t="signal-X": ["proj", e, t]  # noqa: E731
+    progs = []
+
+    def add(name, body, **params):
+        params["power"] = True
+        progs.append({"id": f"wfixed-{name}", "family": "fixed", "kind": "layout", "stmts": ins + body, "params": params})
+
+    def lamps(pts, cond=lambda j: ["cmp", ">", A, K(j + 5)], pre="l"):
+        out = []
+        for j, (x, y) in enumerate(pts):
+            out += [["place", f"{pre}{j}", "small-lamp", K(x), K(y), None], ["enable", f"{pre}{j}", cond(j)]]
+        return out
+
+    add("compact", [["sig", "o", P(["bin", "+", ["bin", "*", A, K(3)], B])], ["sig", "p", P(["cmp", ">", A, B], "signal-Y")]])
+    add("five-combinators", [["sig", "o", P(["bin", "%", ["bin", "+", ["bin", "*", A, K(3)], ["bin", "-", B, K(1)]], K(7)])], ["sig", "q", ["cond", ["cmp", ">", A, K(3)], B]]])
+    add("lamps-near", lamps([(0, 0), (2, 0), (4, 0)]))
+    add("lamps-far", lamps([(0, 0), (22, 0)]))
+    add("lamps-far-neg", lamps([(-20, -6), (8, 3)]))
+    add("row-12", lamps([(i, 0) for i in range(12)]))
+    add("column-12", lamps([(0, i) for i in range(12)]))
+    add("column-34", lamps([(0, i) for i in range(0, 34, 2)]))
+    add("row-34", lamps([(i, 0) for i in range(0, 34, 2)]))
+    add("negative-block", lamps([(-10, -10), (-9, -10), (-10, -9), (-9, -9)]))
+    add("offset-far", lamps([(50, 50), (52, 50)]))
+    add("mixed", [["place", "i0", "inserter", K(0), K(0), None], ["enable", "i0", ["cmp", ">", A, K(1)]], ["place", "am", "assembling-machine-1", K(3), K(0), None], ["enable", "am", ["cmp", ">", B, K(1)]], ["place", "ch", "steel-chest", K(7), K(0), None], ["place", "pm", "pump", K(9), K(0), None]])
+    add("memory", [["mem", "m", "signal-M"], ["write", "m", P(A, "signal-M"), ["cmp", ">", B, K(0)]], ["sig", "r0", ["read", "m"]]] + lamps([(0, 0)], cond=lambda j: ["cmp", ">", ["read", "m"], K(3)]), K=3)
+    body = []
+    for i in range(10):
+        body.append(["sig", f"o{i}", P(["bin", "+", ["bin", "*", A, K(i + 2)], B], f"signal-{chr(ord('C') + i)}")])
+    add("twenty-combinators", body)
+    return progs
+
+
+POWER_BUILDS = [{"tag": f"opt+{t}", "optimize": True, "poles": t} for t in ("small", "medium", "big", "substation")]
+
+
+def corpus_c18(tier):
+    progs = fam_power_fixed()
+    cases = _layout_cases(progs, tier, quick_builds=("opt", "opt+small", "opt+medium", "opt+big", "opt+substation"), quick_unknown=(0,), all_builds=[OPT] + POWER_BUILDS, all_unknown=(0, 3), extra={"e3": False, "ref_check": False})
+    # adding poles changes neither behaviour nor user entities: build with poles == build without (all inputs)
+    for c in progs:
+        pairs = [{"a": {"stmts": c["stmts"], "build": b, "label": b["tag"]}, "b": {"stmts": c["stmts"], "build": OPT, "label": "no poles"}, "tag": f"{b['tag']}-vs-none"} for b in POWER_BUILDS]
+        params = {"K": c["params"]["K"]} if c["params"].get("K") else {}
+        params["acceptance_must_agree"] = False
+        cases.append({"id": c["id"].replace("wfixed-", "wequiv-"), "family": "fixed", "kind": "equiv", "pairs": pairs, "params": params})
+    return cases
